@@ -102,6 +102,8 @@ def rewrite_flag_match(m, tvar):
         pv = _pat_values(a["pat"], len(flags))
         tl = _plain_tail(a["body"])
         el = _vec_elems(tl) if tl is not None else None
+        if el is None and isinstance(tl, dict) and tl.get("k") == "Tuple" and (tl.get("ty") or "").count("core::option::Option<") == len(tl["fields"]) >= 1:
+            el = tl["fields"]        # a tuple of slots (destructured by a `let` and assembled into the vector afterwards)
         if pv is None or el is None:
             return None
         if not all(_is_some(x) or _is_none(x) for x in el):
@@ -181,6 +183,16 @@ def rewrite_flag_match(m, tvar):
         new_slots.append({"k": "If", "ty": some_node.get("ty"), "sp": some_node.get("sp"), "cond": cond, "then": some_node, "else": none_node, "from_flag_match": True})
     out = copy.deepcopy(arms[0][2])
     tgt = _vec_elems(out)
+    if tgt is None and out.get("k") == "Tuple":
+        tgt = out["fields"]
+        # positions of a tuple are not slot numbers: a tuple slot is "its own flag" when its condition is exactly one flag (checked by the
+        # engine rule once the tuple's parts have been placed in the vector)
+        for i in range(n_slots):
+            if new_slots[i].get("k") == "If":
+                on = {asg for asg, el in table.items() if _is_some(el[i])}
+                for j in range(len(flags)):
+                    if on == {asg for asg in table if asg[j]}:
+                        new_slots[i]["cond"] = copy.deepcopy(reads[j])
     if tgt is None or len(tgt) != n_slots:
         return None
     for i in range(n_slots):
@@ -209,4 +221,23 @@ def normalise_flag_matches(facts):
                     x.clear()
                     x.update(new)
                     n += 1
+        # `let (left, right) = (if t[0] {..} else {None}, if t[1] {..} else {None});` reads as two lets
+        for blk in list(walk(b["thir"]["root"])):
+            if blk.get("k") != "Block":
+                continue
+            out_stmts = []
+            for st in blk["stmts"]:
+                init = strip(st.get("init")) if st["s"] == "let" and st.get("init") is not None else None
+                pat = st.get("pat") if st["s"] == "let" else None
+                if isinstance(init, dict) and init.get("k") == "Tuple" and init.get("from_flag_match") and isinstance(pat, dict) and pat.get("k") == "Leaf" \
+                        and len(pat.get("subs") or []) == len(init["fields"]) and all(s_["pat"].get("k") == "Binding" and isinstance(s_.get("idx"), int) for s_ in pat["subs"]) \
+                        and st.get("else") is None:
+                    for s_ in sorted(pat["subs"], key=lambda q: q["idx"]):
+                        ns = dict(st)
+                        ns["pat"] = s_["pat"]
+                        ns["init"] = init["fields"][s_["idx"]]
+                        out_stmts.append(ns)
+                else:
+                    out_stmts.append(st)
+            blk["stmts"] = out_stmts
     return n
